@@ -18,6 +18,7 @@ DRIVERS = [  # component, trace module, driver cfg (quick, thorough)
     ("breaker", "Trace_Breaker", {"rounds": 25, "goroutines": 8}, {"rounds": 150, "goroutines": 12}),
     ("metrics", "Trace_Conc", {"goroutines": 8, "ops": 300}, {"goroutines": 16, "ops": 2000}),
     ("rate", "Trace_Conc", {"goroutines": 12, "ops": 150}, {"goroutines": 16, "ops": 800}),
+    ("ttl", "Trace_Conc", {"rounds": 3000}, {"rounds": 30000}),
     ("rebal", "Trace_Conc", {"goroutines": 8, "ops": 150}, {"goroutines": 12, "ops": 800}),
     ("rebaladmin", "Trace_Conc", {"goroutines": 8, "adminops": 1500}, {"goroutines": 12, "adminops": 6000}),
     ("stackall", "Trace_Conc", {"goroutines": 8, "ops": 100}, {"goroutines": 12, "ops": 600}),
